@@ -37,11 +37,20 @@ def parse_guard():
     return float(g[0]), None
 
 
-def linmap(rd, T):
-    """Read the sampler's linear map column by column through the `randn` argument (unit vectors)."""
-    nii = len(rd._eigvals_ii)
-    nb = len(rd._eigvals_ii[0])
-    nij = len(rd._eigvals_ij) if rd._ij else 0
+def mode_counts(rd):
+    """(number of self-conjugate points, number of pair representatives, number of bands) from the public attributes:
+    `qpoints` lists the self-conjugate points first, then one representative of every conjugate pair."""
+    qp = np.array(rd.qpoints, dtype="double")
+    fr = np.array(rd.frequencies)
+    selfc = [bool((np.abs(2 * q_ - np.rint(2 * q_)) < 1e-8).all()) for q_ in qp]
+    nii = sum(selfc)
+    if selfc != [True] * nii + [False] * (len(qp) - nii):
+        raise RuntimeError("RandomDisplacements.qpoints: self-conjugate points are not listed first")
+    return nii, len(qp) - nii, fr.shape[1]
+
+
+def unit_randn(rd):
+    nii, nij, nb = mode_counts(rd)
     ncol = nii * nb + 2 * nij * nb
     rii = np.zeros((nii, ncol, nb))
     rij = np.zeros((nij, 2, ncol, nb))
@@ -55,9 +64,14 @@ def linmap(rd, T):
             for b in range(nb):
                 rij[a, t, c, b] = 1
                 c += 1
+    return rii, rij, ncol, nij
+
+
+def linmap(rd, T):
+    """Read the sampler's linear map column by column through the `randn` argument (unit vectors)."""
+    rii, rij, ncol, _ = unit_randn(rd)
     rd.run(T, number_of_snapshots=ncol, randn=(rii, rij))
     return rd.u.reshape(ncol, -1).T.copy()  # (3 ns, ncol)
-
 
 
 class _FakeGen:
@@ -79,22 +93,7 @@ class _FakeGen:
 
 
 def linmap_via_generator(rd, T):
-    nii = len(rd._eigvals_ii)
-    nb = len(rd._eigvals_ii[0])
-    nij = len(rd._eigvals_ij) if rd._ij else 0
-    ncol = nii * nb + 2 * nij * nb
-    rii = np.zeros((nii, ncol, nb))
-    rij = np.zeros((nij, 2, ncol, nb))
-    c = 0
-    for a in range(nii):
-        for b in range(nb):
-            rii[a, c, b] = 1
-            c += 1
-    for a in range(nij):
-        for t in range(2):
-            for b in range(nb):
-                rij[a, t, c, b] = 1
-                c += 1
+    rii, rij, ncol, nij = unit_randn(rd)
     fake = _FakeGen([rii] + ([rij] if nij else []))
     saved = np.random.default_rng
     np.random.default_rng = lambda *a, **k: fake
@@ -107,27 +106,31 @@ def linmap_via_generator(rd, T):
     return rd.u.reshape(ncol, -1).T.copy()
 
 
-def sigma_raw(rd, eigvals, T):
-    """sigma as `_get_sigma` computes it before the final mask (masked modes use freq = 1)."""
-    from phonopy.phonon.random_displacements import bose_einstein_dist
+def sigma_raw(mode, factor, cut, eigvals, T):
+    """sigma of every mode before the cutoff mask, from the documented formulas and phonopy.units (masked modes use freq = 1):
+    quantum sqrt(hbar (1/2 + n) / omega), classical sqrt(kB T) / omega, omega = 2 pi f, f = sqrt|lambda| * factor in THz."""
+    from phonopy.units import AMU, EV, Angstrom, Hbar, Kb, THz, THzToEv
 
     eigvals = np.asarray(eigvals, dtype="double")
-    freqs = np.sqrt(np.abs(eigvals)) * rd._factor
-    cond = freqs > rd._cutoff_frequency
+    freqs = np.sqrt(np.abs(eigvals)) * factor
+    cond = freqs > cut
     fr = np.where(cond, freqs, 1)
     with np.errstate(all="ignore"):
-        if rd._dist_func == "classical":
-            sig = np.sqrt(T * rd._unit_conversion_classical) / fr
+        if mode == "classical":
+            sig = np.sqrt(T * (Kb * EV / AMU / (THz * (2 * np.pi)) ** 2 / Angstrom ** 2)) / fr
         else:
-            n = bose_einstein_dist(fr, T)
-            sig = np.sqrt(rd._unit_conversion / fr * (0.5 + n))
+            n = 1.0 / (np.exp(THzToEv * fr / (Kb * T)) - 1)
+            sig = np.sqrt(Hbar * EV / AMU / THz / (2 * np.pi) / Angstrom ** 2 / fr * (0.5 + n))
     return freqs, sig
 
 
-def dense_oracle(ph, T, cutoff, mode):
-    """Canonical displacement covariance of the supercell, computed from the supercell force constants only."""
+def dense_oracle(ph, T, cutoff, mode, factor=None):
+    """Canonical displacement covariance (Angstrom^2) of the supercell, computed from the supercell force constants only;
+    `factor` converts sqrt(eigenvalue of Phi/sqrt(m m')) in the units of `ph` to THz."""
     from phonopy.units import AMU, EV, Angstrom, Hbar, Kb, THz, THzToEv, VaspToTHz
 
+    if factor is None:
+        factor = VaspToTHz
     sc = ph.supercell
     fc = ph.force_constants
     n = len(sc)
@@ -136,7 +139,7 @@ def dense_oracle(ph, T, cutoff, mode):
     Dm = Phi / np.sqrt(np.outer(m, m))
     Dm = (Dm + Dm.T) / 2
     lam, E = np.linalg.eigh(Dm)
-    f = np.sqrt(np.abs(lam)) * VaspToTHz
+    f = np.sqrt(np.abs(lam)) * factor
     ok = f > cutoff
     var = np.zeros_like(f)
     if mode == "classical":
@@ -234,6 +237,13 @@ def main(run):
     lines, meta = [], []
 
     # =========================================================== random displacements
+    from phonopy.interface.calculator import get_default_physical_units
+    from phonopy.units import Bohr, Hartree, Rydberg, VaspToTHz
+
+    # the same crystal in three unit systems: (label, length unit in Angstrom, energy unit in eV, frequency factor to THz)
+    UNITSYS = [("eV/Angstrom (default factor)", 1.0, 1.0, VaspToTHz),
+               ("Ry/bohr (factor=PwscfToTHz)", Bohr, Rydberg, get_default_physical_units("qe")["factor"]),
+               ("hartree/bohr (factor of cp2k)", Bohr, Hartree, get_default_physical_units("cp2k")["factor"])]
     nrd = 96 if thorough else 12
     max_ns = 18 if thorough else 10
     made = attempts = 0
@@ -247,63 +257,118 @@ def main(run):
         ns = len(cell) * int(round(abs(np.linalg.det(smat))))
         if ns > max_ns or ns < 2:
             continue
+        ulabel, ulen, uen, factor = UNITSYS[made % 3]
+        mode = ["quantum", "classical"][(made // 3) % 2]  # every unit system meets both statistics within 6 cases
         try:
-            ph = Phonopy(cell, supercell_matrix=smat, primitive_matrix="P", log_level=0)
+            phA = Phonopy(cell, supercell_matrix=smat, primitive_matrix="P", log_level=0)
+            fcA = gen.pair_fc(phA.supercell, rng.choice([3.5, 4.5]))  # eV/Angstrom^2
+            cellu = cell.copy()
+            cellu.cell = cell.cell / ulen
+            ph = Phonopy(cellu, supercell_matrix=smat, primitive_matrix="P", log_level=0, factor=factor)
         except Exception:
             run.count("constructor-rejected")
             continue
-        fc = gen.pair_fc(ph.supercell, rng.choice([3.5, 4.5]))
+        fc = fcA * ulen ** 2 / uen
         ph.force_constants = fc.copy()
-        mode = rng.choice(["quantum", "classical"])
         cutoff = rng.choice([None, 0.5, 3.0])
-        if made % 3 == 0:
-            rd = RandomDisplacements(ph.supercell, ph.primitive, ph.force_constants, dist_func=mode, cutoff_frequency=cutoff)
+        cut = 0.01 if cutoff is None else cutoff
+        if made % 2 == 0:
+            rd = RandomDisplacements(ph.supercell, ph.primitive, ph.force_constants, dist_func=mode, cutoff_frequency=cutoff, factor=factor)
         else:  # through the public API (passes the unit factor and the OpenMP flag)
             ph.init_random_displacements(dist_func=mode, cutoff_frequency=cutoff)
             rd = ph.random_displacements
-        has_pairs = bool(rd._ij)
+        T = rng.choice([0.0, 0.3, 1.0, 10.0, 300.0, 1000.0])
+        nii, nij, nb = mode_counts(rd)
+        has_pairs = nij > 0
         if want_pairs != has_pairs:
             run.count("rd: smat class differs from expectation")
-        T = rng.choice([0.0, 0.3, 1.0, 10.0, 300.0, 1000.0])
-        info0 = dict(cell=name, smat=np.array(smat).tolist(), dist_func=mode, cutoff=cutoff, T=T)
-        info = dict(cell=name, smat=np.array(smat).tolist(), dist_func=mode, cutoff=cutoff, T=T, n_ii=len(rd._ii), n_ij=len(rd._ij))
+        info0 = dict(cell=name, smat=np.array(smat).tolist(), units=ulabel, factor=float(factor), dist_func=mode, cutoff=cutoff, T=T)
+        info = dict(info0, n_ii=nii, n_ij=nij)
         npa, nsat = len(ph.primitive), len(ph.supercell)
-        nb = 3 * npa
-        nii, nij = len(rd._ii), len(rd._ij)
-        N = len(rd._comm_points)
+        N = nsat // npa
+
+        # ---------------- oracle on the implementation: public API only
         A = linmap(rd, T)
         covI = A @ A.T
-        # the path without `randn`: the generator is asked for two arrays; feed the same unit vectors through a stand-in generator
         A_gen = linmap_via_generator(rd, T)
         run.count("oracle-rd-generator-path", section="oracle")
         if A_gen is None or not np.array_equal(A_gen, A):
             run.violation("RandomDisplacements.run(randn=None)", "generator-wiring",
                           "displacements obtained through the random generator differ from those obtained through `randn` for the same variates", info0)
-        # frequencies setter/getter round trip leaves the eigen-solutions alone
-        ev_before = [np.array(rd._eigvals_ii).copy(), np.array(rd._eigvals_ij).copy()]
+        f_before = np.array(rd.frequencies).copy()
         rd.frequencies = rd.frequencies
         run.count("oracle-rd-frequencies-roundtrip", section="oracle")
-        dmax = max(np.abs(np.array(rd._eigvals_ii) - ev_before[0]).max(), np.abs(np.array(rd._eigvals_ij) - ev_before[1]).max() if len(ev_before[1]) else 0.0)
-        if dmax > 1e-12 * max(1.0, np.abs(ev_before[0]).max()):
-            run.violation("RandomDisplacements.frequencies", "setter-getter-roundtrip", "eigenvalues change by %.3g under frequencies = frequencies" % dmax, info0)
+        if np.abs(np.array(rd.frequencies) - f_before).max() > 1e-12 * max(1.0, np.abs(f_before).max()) or \
+                np.abs(linmap(rd, T) - A).max() > 1e-12 * max(np.abs(A).max(), 1e-300):
+            run.violation("RandomDisplacements.frequencies", "setter-getter-roundtrip", "frequencies = frequencies changes the sampler", info0)
         rd.run_correlation_matrix(T)
         uu, uui = rd.uu.copy(), rd.uu_inv.copy()
         rd.run_d2f()
         fc_back = rd.force_constants.copy()
+        C, rank, fsc = dense_oracle(ph, T, cut, mode, factor)
+        scale = max(np.abs(C).max(), 1e-300)
+        near_cut = np.abs(fsc - cut).min() < 1e-6
+        nontrivial = nsat > npa and rank > 0
+        run.case(("rd", name, np.array(smat).tolist(), ulabel, mode, cutoff, T), nontrivial=nontrivial)
+        run.count("rd %s" % ("with conjugate pairs" if has_pairs else "self-conjugate points only"))
+        run.count("rd supercell matrix %s" % ("non-symmetric" if (np.array(smat) != np.array(smat).T).any() else "symmetric"))
+        run.count("rd %s, %s" % (mode, ulabel))
+        run.count("rd T=%g" % T)
+        run.count("rd cutoff=%s" % cutoff)
+        run.sample(dict(info, n_patom=npa, n_satom=nsat, unmasked_modes=rank))
+        made += 1
+        klass = ("pairs" if has_pairs else "self-conjugate") + "-" + mode + ("" if made % 3 == 1 else "-nondefault-factor")
+        if near_cut:
+            run.count("oracle-skip: a mode sits on the cutoff", section="oracle")
+        else:
+            run.count("oracle-rd-covariance", section="oracle")
+            if np.abs(covI - C).max() > 1e-8 * scale:
+                run.violation("RandomDisplacements.run", klass, "covariance A.A^T of the sampler differs from the canonical covariance by %.3g (scale %.3g; units %s)" % (
+                    np.abs(covI - C).max(), scale, ulabel), info)
+            U = uu.transpose(0, 2, 1, 3).reshape(3 * nsat, 3 * nsat)
+            Ui = uui.transpose(0, 2, 1, 3).reshape(3 * nsat, 3 * nsat)
+            if np.abs(U - C).max() > 1e-8 * scale:
+                run.violation("RandomDisplacements.run_correlation_matrix", klass, "uu differs from the canonical covariance by %.3g (scale %.3g; units %s)" % (
+                    np.abs(U - C).max(), scale, ulabel), info)
+            if rank > 0 and T > 0 and np.isfinite(Ui).all():
+                P = U @ Ui
+                e1 = np.abs(U @ Ui @ U - U).max() / scale
+                e2 = np.abs(Ui @ U @ Ui - Ui).max() / max(np.abs(Ui).max(), 1e-300)
+                e3 = abs(np.trace(P) - rank)
+                m3 = np.sqrt(np.outer(np.repeat(ph.supercell.masses, 3), np.repeat(ph.supercell.masses, 3)))
+                Ci = np.linalg.pinv(C * m3, rcond=1e-10, hermitian=True) * m3  # M^1/2 (M^1/2 C M^1/2)^+ M^1/2
+                e4 = np.abs(Ui - Ci).max() / max(np.abs(Ci).max(), 1e-300)
+                run.count("oracle-rd-uu_inv", section="oracle")
+                if e1 > 1e-7 or e2 > 1e-7 or e3 > 1e-6 * max(1, rank) or e4 > 1e-6:
+                    run.violation("RandomDisplacements.run_correlation_matrix", klass + "-uu_inv",
+                                  "uu_inv is not the inverse of the canonical covariance on the unmasked subspace (|UVU-U|=%.3g, |VUV-V|=%.3g, "
+                                  "tr(UV)-rank=%.3g, |V - M^1/2 pinv(M^1/2 C M^1/2) M^1/2|=%.3g)" % (e1, e2, e3, e4), info)
+            run.count("oracle-rd-d2f", section="oracle")
+            if np.abs(fc_back - fc).max() > 1e-9 * max(1.0, np.abs(fc).max()):
+                run.violation("RandomDisplacements.run_d2f", klass, "force constants rebuilt from unmodified eigen-solutions differ by %.3g" % np.abs(fc_back - fc).max(), info)
 
-        # ---- model inputs
-        eii = np.array(rd._eigvecs_ii, dtype="double")
-        cosii = np.array([p.ravel() for p in rd._phase_ii], dtype="double")
-        eij = np.array(rd._eigvecs_ij, dtype=complex) if nij else np.zeros((0, nb, nb), dtype=complex)
-        phij = np.array([p.ravel() for p in rd._phase_ij], dtype=complex) if nij else np.zeros((0, nsat), dtype=complex)
-        fii, sii = sigma_raw(rd, rd._eigvals_ii, T)
-        fij, sij = sigma_raw(rd, rd._eigvals_ij, T) if nij else (np.zeros((0, nb)), np.zeros((0, nb)))
+        # ---------------- model inputs (private eigen-solutions of the object): a refactoring that removes them must not
+        # abort the oracle above; it makes the correspondence unavailable, which is reported as such
+        try:
+            eii = np.array(rd._eigvecs_ii, dtype="double")
+            cosii = np.array([p.ravel() for p in rd._phase_ii], dtype="double")
+            eij = np.array(rd._eigvecs_ij, dtype=complex) if nij else np.zeros((0, nb, nb), dtype=complex)
+            phij = np.array([p.ravel() for p in rd._phase_ij], dtype=complex) if nij else np.zeros((0, nsat), dtype=complex)
+            lam_ii = np.array(rd._eigvals_ii, dtype="double")
+            lam_ij = np.array(rd._eigvals_ij, dtype="double") if nij else np.zeros((0, nb))
+            s2pp = np.array(rd._s2pp, dtype=int)
+            comm = np.array(rd._comm_points)
+            ii_idx, ij_idx = list(rd._ii), list(rd._ij)
+            qpts, _, _ = rd._collect_eigensolutions()
+        except AttributeError as e:
+            run.broke("correspondence", "private eigen-solutions of RandomDisplacements are not accessible (%s): model inputs unavailable" % e, info)
+            continue
+        fii, sii = sigma_raw(mode, factor, cut, lam_ii, T)
+        fij, sij = sigma_raw(mode, factor, cut, lam_ij, T) if nij else (np.zeros((0, nb)), np.zeros((0, nb)))
         sii = np.nan_to_num(sii, nan=0.0, posinf=0.0, neginf=0.0)
         sij = np.nan_to_num(sij, nan=0.0, posinf=0.0, neginf=0.0)
         mass = ph.supercell.masses
         rm = np.sqrt(mass * N)
-        s2pp = np.array(rd._s2pp, dtype=int)
-        cut = rd._cutoff_frequency
         lines.append("rd %d %d %d %d %s %s %s %s %s %s %s %s %s %s %s %s" % (
             npa, nsat, nii, nij, Q(cut), " ".join(map(str, s2pp)), _flat(eii), _flat(cosii), _flatc(eij), _flatc(phij),
             _flat(fii), _flat(sii), _flat(fij), _flat(sij), _flat(rm), Q(np.sqrt(2))))
@@ -323,7 +388,6 @@ def main(run):
         if hyp3 > 1e-8:
             run.broke("correspondence", "hypothesis ModesOrthonormal.char fails numerically (%.3g)" % hyp3, info)
         # correlation matrices
-        qpts, evals_c, evecs_c = rd._collect_eigensolutions()
         qpts = np.array(qpts, dtype="double")
         pd = d2f_phases(ph.primitive, qpts)
         ppos = ph.primitive.scaled_positions
@@ -336,11 +400,10 @@ def main(run):
         p2s = np.array(ph.primitive.p2s_map)
         lines.append("corr " + head + " %s %s %s %s" % (_flat(fii), _flat(sii), _flat(fij), _flat(sij)))
         meta.append(("corr", info, dict(uu=uu[p2s], uui=uui[p2s])))
-        lines.append("d2f " + head + " %s %s %s %s" % (_flat(fii), _flat(np.array(rd._eigvals_ii)), _flat(fij),
-                                                      _flat(np.array(rd._eigvals_ij)) if nij else ""))
+        lines.append("d2f " + head + " %s %s %s %s" % (_flat(fii), _flat(lam_ii), _flat(fij), _flat(lam_ij) if nij else ""))
         meta.append(("d2f", info, dict(fc=fc_back[p2s])))
-        lines.append("part %d %s %d %s %d %s" % (N, " ".join(map(str, np.array(rd._comm_points).ravel())), nii, " ".join(map(str, rd._ii)),
-                                              nij, " ".join(map(str, rd._ij))))
+        lines.append("part %d %s %d %s %d %s" % (len(comm), " ".join(map(str, comm.ravel())), nii, " ".join(map(str, ii_idx)),
+                                              nij, " ".join(map(str, ij_idx))))
         meta.append(("part", info, None))
 
         # ---- hypotheses of the theorems, checked numerically
@@ -349,7 +412,6 @@ def main(run):
             hyp = max(hyp, np.abs(E.conj().T @ E - np.eye(nb)).max())
         hyp = max(hyp, np.abs(np.abs(phij) - 1).max() if nij else 0.0, np.abs(np.abs(cosii) - 1).max())
         run.count("hypotheses-checked(orthonormal eigenvectors, unit phases)", section="correspondence")
-        # hypotheses of uu_eq_cov / d2f_identity on the phase tables
         hyp2 = 0.0
         for q_ in range(nij):
             for i_ in range(npa):
@@ -370,45 +432,6 @@ def main(run):
             run.broke("correspondence", "hypothesis of uu_eq_cov/d2f_identity fails numerically (%.3g)" % hyp2, info)
         if hyp > 1e-8:
             run.broke("correspondence", "hypothesis of cov_eq_canonical fails numerically (%.3g)" % hyp, info)
-
-        # ---- oracle on the implementation
-        C, rank, fsc = dense_oracle(ph, T, cut, mode)
-        scale = max(np.abs(C).max(), 1e-300)
-        near_cut = np.abs(fsc - cut).min() < 1e-6
-        nontrivial = nsat > npa and rank > 0
-        run.case(("rd", name, np.array(smat).tolist(), mode, cutoff, T), nontrivial=nontrivial)
-        run.count("rd %s" % ("with conjugate pairs" if has_pairs else "self-conjugate points only"))
-        run.count("rd supercell matrix %s" % ("non-symmetric" if (np.array(smat) != np.array(smat).T).any() else "symmetric"))
-        run.count("rd %s" % mode)
-        run.count("rd T=%g" % T)
-        run.count("rd cutoff=%s" % cutoff)
-        run.sample(dict(info, n_patom=npa, n_satom=nsat, unmasked_modes=rank))
-        made += 1
-        if near_cut:
-            run.count("oracle-skip: a mode sits on the cutoff", section="oracle")
-            continue
-        klass = ("pairs" if has_pairs else "self-conjugate") + "-" + mode
-        run.count("oracle-rd-covariance", section="oracle")
-        if np.abs(covI - C).max() > 1e-8 * scale:
-            run.violation("RandomDisplacements.run", klass, "covariance A.A^T of the sampler differs from the canonical covariance by %.3g (scale %.3g)" % (
-                np.abs(covI - C).max(), scale), info)
-        U = uu.transpose(0, 2, 1, 3).reshape(3 * nsat, 3 * nsat)
-        Ui = uui.transpose(0, 2, 1, 3).reshape(3 * nsat, 3 * nsat)
-        if np.abs(U - C).max() > 1e-8 * scale:
-            run.violation("RandomDisplacements.run_correlation_matrix", klass, "uu differs from the canonical covariance by %.3g (scale %.3g)" % (
-                np.abs(U - C).max(), scale), info)
-        if rank > 0 and T > 0:
-            P = U @ Ui
-            e1 = np.abs(U @ Ui @ U - U).max() / scale
-            e2 = np.abs(Ui @ U @ Ui - Ui).max() / max(np.abs(Ui).max(), 1e-300)
-            e3 = abs(np.trace(P) - rank)
-            run.count("oracle-rd-uu_inv", section="oracle")
-            if e1 > 1e-7 or e2 > 1e-7 or e3 > 1e-6 * max(1, rank):
-                run.violation("RandomDisplacements.run_correlation_matrix", klass + "-uu_inv",
-                              "uu_inv is not the inverse of uu on the unmasked subspace (|UVU-U|=%.3g, |VUV-V|=%.3g, tr(UV)-rank=%.3g)" % (e1, e2, e3), info)
-        run.count("oracle-rd-d2f", section="oracle")
-        if np.abs(fc_back - fc).max() > 1e-9 * max(1.0, np.abs(fc).max()):
-            run.violation("RandomDisplacements.run_d2f", klass, "force constants rebuilt from unmodified eigen-solutions differ by %.3g" % np.abs(fc_back - fc).max(), info)
 
     # =========================================================== API sequences on ONE Phonopy instance
     # generate at T -> mutate the state (masses / force constants in place / new force constants / NAC) -> generate again:
@@ -477,8 +500,8 @@ def main(run):
             # independent dense oracle whenever the current force constants are symmetric (then D(q) needs no Hermitisation)
             fcn = np.array(ph.force_constants)
             if np.abs(fcn - fcn.transpose(1, 0, 3, 2)).max() < 1e-10 * max(1.0, np.abs(fcn).max()):
-                C, rank, fsc = dense_oracle(ph, T, rd_used._cutoff_frequency, "quantum")
-                if np.abs(fsc - rd_used._cutoff_frequency).min() > 1e-6:
+                C, rank, fsc = dense_oracle(ph, T, 0.01, "quantum")
+                if np.abs(fsc - 0.01).min() > 1e-6:
                     run.count("oracle-api-sequence-vs-dense-covariance", section="oracle")
                     if np.abs(cov_used - C).max() > 1e-8 * max(np.abs(C).max(), 1e-300):
                         run.violation("Phonopy.generate_displacements(temperature)", "after-" + label + "-dense",
